@@ -1,5 +1,5 @@
 (* Proofs of the C07 theorems: what the model computes satisfies the specification predicate. *)
-From LC Require Import Lib.Bytes Lib.Lex Lib.Fields Gen.Consts Model.TarMeta Proofs.TarMetaP Cases.C07.
+From LC Require Import Lib.Bytes Lib.Lex Lib.Fields Gen.Consts Model.TarMeta Model.OutFile Proofs.TarMetaP Proofs.OutFileP Cases.C07.
 From Coq Require Import ZArith Lia Bool.
 Import C07.
 Open Scope N_scope.
@@ -1014,7 +1014,7 @@ Qed.
 Lemma wf_members_pre c : wf c = true ->
   Forall (member_pre c) (c_members c) /\ pairwise inode_consistent (c_members c) = true.
 Proof.
-  unfold wf. intros H. apply andb_true_iff in H as [H Hpw]. split; [|assumption].
+  unfold wf. intros H. apply andb_true_iff in H as [H _]. apply andb_true_iff in H as [H Hpw]. split; [|assumption].
   apply andb_true_iff in H as [H _]. apply andb_true_iff in H as [H Hwin].
   apply andb_true_iff in H as [H _]. apply andb_true_iff in H as [Hm _].
   apply Forall_forall. intros m Hin. rewrite forallb_forall in Hm, Hwin.
@@ -1027,8 +1027,9 @@ Proof.
   intros c Hwf Hkf. destruct (wf_members_pre c Hwf) as [Hpre Hpc].
   assert (Hpn : pairwise no_link_override (c_members c) = true).
   { unfold kf in Hkf. destruct (pairwise no_link_override (c_members c)); [reflexivity|discriminate]. }
-  unfold spec, model. cbn [fst snd].
-  apply andb_true_iff. split; [apply andb_true_iff; split; [apply andb_true_iff; split; [apply andb_true_iff; split|]|]|].
+  unfold spec, model, o_run, o_comp, o_ext, o_out. cbn [fst snd].
+  apply andb_true_iff. split; [apply andb_true_iff; split; [apply andb_true_iff; split; [apply andb_true_iff; split;
+    [apply andb_true_iff; split; [apply andb_true_iff; split|]|]|]|]|].
   - unfold run. destruct (add_all (map mc_member (c_members c))) as [es| | |] eqn:Ea.
     + destruct (run_members_ok c (c_members c) es [] [] Hpre Hpc Hpn) as (hs & Hhs & Hms);
         [intros ? ? ? []|assumption|intros g n []|].
@@ -1047,6 +1048,13 @@ Proof.
   - clear. induction (c_comp c) as [|x r IH]; [reflexivity|]. cbn. now rewrite N.eqb_refl.
   - clear. induction (c_ext c) as [|x r IH]; [reflexivity|]. cbn. assumption.
   - rewrite map_length. apply Nat.eqb_refl.
+  - (* the -o file: exactly the bytes written, whatever the path held before *)
+    clear. induction (c_out c) as [|x r IH]; [reflexivity|]. cbn [map forallb]. rewrite IH, andb_true_r.
+    unfold out_ok, model_out. cbn [oo_whole oo_same oo_len oo_method oo_fresh].
+    rewrite out_len_exact, N.eqb_refl. now destruct (oo_method x =? 0).
+  - clear. induction (c_out c) as [|x r IH]; [reflexivity|]. cbn [map list_beq]. rewrite IH, andb_true_r.
+    unfold out_key_beq, model_out, optN_beq. cbn [oo_method oo_prior oo_fresh].
+    rewrite !N.eqb_refl. destruct (oo_prior x); cbn [opt_beq andb]; [now rewrite N.eqb_refl|reflexivity].
 Qed.
 
 (* ---------- each option changes exactly its field ---------- *)
@@ -1425,9 +1433,11 @@ Definition example_case : case :=
           (MSym [(2, true, 1); (3, false, 2)]);
       MkM (MkMember (MkOpts LNone (bs "/opt/t/blk") false [] None None None None true) (SPresent example_obj_blk) 100%Z) MNone;
       MkM (MkMember (MkOpts LSym (bs "/opt/t/lnk") false [] None None None None false) (SPresent example_obj_lnk) 100%Z) MNone ]
-    100%Z 101%Z [(1, true)] [true] RFailed.
+    100%Z 101%Z [(1, true)] [true]
+    [MkOut 0 (Some 3048448) 47104 47104 true true; MkOut 3 (Some 9000) 5120 5120 true true; MkOut 1 None 700 700 true true]
+    RFailed.
 Example example_wf : wf example_case = true /\ kf example_case = 0
-  /\ (exists hs, fst (fst (model example_case)) = ROutput hs /\ length hs = 3%nat).
+  /\ (exists hs, o_run (model example_case) = ROutput hs /\ length hs = 3%nat).
 Proof. vm_compute. repeat split. eexists. split; reflexivity. Qed.
 
 Lemma dev_decode d : dev_major d = ref_major d /\ dev_minor d = ref_minor d.
@@ -1440,6 +1450,26 @@ Definition refute1_case : case :=
     [ MkM (MkMember (MkOpts LFile (bs "/a") false [] (Some (bs "o-r")) None None None false) (SPresent refute1_obj) 0%Z)
           (MSym [(3, false, 0)]);
       MkM (MkMember (MkOpts LNone (bs "/b") false [] None None None None true) (SPresent refute1_obj) 0%Z) MNone ]
-    0%Z 0%Z [] [] RFailed.
+    0%Z 0%Z [] [] [] RFailed.
 Lemma refuted_1 : exists c, wf c = true /\ kf c = 1 /\ spec c (model c) = false.
 Proof. exists refute1_case. vm_compute. auto. Qed.
+
+(* ---------- the file named by -o (Model/OutFile.v) ---------- *)
+Lemma output_compress_same : forall (filter unfilter : N -> bytes -> bytes),
+  (forall m b, unfilter m (filter m b) = b) ->
+  forall (p : prior) m archive, m <> 0 ->
+    unfilter m (out_file p [write_tar_file filter m archive]) = out_file None [write_tar_file filter 0 archive].
+Proof.
+  intros filter unfilter Hlaw p m archive Hm. rewrite !out_file_exact. cbn [concat]. rewrite !app_nil_r.
+  exact (compress_same filter unfilter Hlaw m archive Hm).
+Qed.
+
+Lemma output_needs_trunc : forall (old : bytes) (chunks : list bytes),
+  write_out OCreateKeep (Some old) chunks = concat chunks ++ skipn (length (concat chunks)) old
+  /\ (write_out OCreateKeep (Some old) chunks = concat chunks <-> (length old <= length (concat chunks))%nat).
+Proof. intros old chunks. split; [exact (keep_stale_tail old chunks)|exact (keep_exact_iff old chunks)]. Qed.
+
+Lemma output_len : forall (p : prior) (chunks : list bytes),
+  N.of_nat (length (out_file p chunks)) = out_len (plen p) (N.of_nat (length (concat chunks)))
+  /\ out_len (plen p) (N.of_nat (length (concat chunks))) = N.of_nat (length (concat chunks)).
+Proof. intros p chunks. split; [exact (out_len_spec p chunks)|exact (out_len_exact _ _)]. Qed.
